@@ -21,7 +21,7 @@ def harness(name, ns, body_fn, covers, thorough=False, decl="let mut fl = Fl::de
     if stub:
         lines.append("#[kani::stub(std::fmt::format, crate::util::fmt_stub)]")
     lines.append(f"#[kani::unwind({max(ns) + 4 + unwind_extra})]")
-    if solver:
+    if solver and os.environ.get("C08_NO_SOLVER") != "1":
         lines.append(f"#[kani::solver({solver})]")
     lines.append(f"pub fn c08_{name}_{tag(ns)}() {{")
     lines.append("    " + decl)
@@ -48,7 +48,7 @@ ELTS = [("opti32", "Option<i32>", "Any"), ("f64", "f64", "Small")]
 for t, E, alpha in ELTS:
     family(f"ins_extrema_{t}", lambda n, E=E, alpha=alpha: [f"ins_extrema::<{E}, {n}, {n + 1}>(Alpha::{alpha}, &mut fl);"],
            INS + [("fl.shifted", "the arg-minimum moved past the inserted null", 1), ("fl.stayed", "the arg-minimum stayed in place", 1)],
-           [[0, 1], [2], [3]], [[4]])
+           [[0, 1], [2], [3]] if t == "opti32" else [[2], [3]], [[4]] if t == "opti32" else [[0, 1], [4]])
 
 family("ins_sum_opti32", lambda n: [f"ins_sum::<{n}, {n + 1}>(&mut fl);"], INS, [[0, 1, 2], [3]], [[4]])
 
@@ -64,23 +64,23 @@ QSINGLE = [("fl.before_valid", "the null is inserted before the single valid ele
 QELTS = [("opti32", "Option<i32>", "Small"), ("f64", "f64", "Small")]
 for t, E, alpha in QELTS:
     family(f"ins_quantile_{t}", lambda n, E=E, alpha=alpha: [f"ins_quantile::<{E}, {n}, {n + 1}>(Alpha::{alpha}, false, &mut fl);"],
-           QMAIN, [[0, 1], [2]], [[3]], stub=True, solver="minisat")
+           QMAIN, [[0, 1], [2]] if t == "opti32" else [[2]], [[3]] if t == "opti32" else [[0, 1], [3]], stub=True, solver="minisat")
     family(f"ins_median_{t}", lambda n, E=E, alpha=alpha: [f"ins_median::<{E}, {n}, {n + 1}>(Alpha::{alpha}, false, &mut fl);"],
-           QMAIN, [[0, 1], [2]], [[3]], stub=True, solver="minisat")
+           QMAIN, [[0, 1], [2]] if t == "opti32" else [[2]], [[3]] if t == "opti32" else [[0, 1], [3]], stub=True, solver="minisat")
     family(f"quantile_single_valid_{t}", lambda n, E=E, alpha=alpha: [f"ins_quantile::<{E}, {n}, {n + 1}>(Alpha::{alpha}, true, &mut fl);"],
-           QSINGLE, [[1]], [[2]], stub=True, solver="minisat")
+           QSINGLE, [[1]] if t == "f64" else [], [[2]] if t == "f64" else [[1], [2]], stub=True, solver="minisat")
     family(f"median_single_valid_{t}", lambda n, E=E, alpha=alpha: [f"ins_median::<{E}, {n}, {n + 1}>(Alpha::{alpha}, true, &mut fl);"],
-           QSINGLE, [[1]], [[2]], stub=True, solver="minisat")
+           QSINGLE, [[1]] if t == "opti32" else [], [[2]] if t == "opti32" else [[1], [2]], stub=True, solver="minisat")
 
 # encoding independence
 EDECL = "let mut fl = EFl::default();"
 ENC = [("fl.mixed", "a null next to a valid element", 2), ("fl.null_first", "null first, valid element behind it", 2),
        ("fl.all_null", "no valid element in a non-empty series", 1)]
 family("enc_exact", lambda n: [f"enc_exact::<{n}>(&mut fl);"], ENC, [[0, 1], [2], [3]], [[4]], decl=EDECL)
-family("enc_quantile", lambda n: [f"enc_quantile::<{n}>(&mut fl);"], ENC, [[0, 1], [2], [3]], [[4]], decl=EDECL, stub=True, solver="minisat")
+family("enc_quantile", lambda n: [f"enc_quantile::<{n}>(&mut fl);"], ENC, [[0, 1], [2]], [[3], [4]], decl=EDECL, stub=True, solver="minisat")
 OUTC = ENC + [("fl.null_out", "a null output position", 1), ("fl.value_out", "a non-null output position", 1)]
 # two rolling runs per harness are expensive (c07: 80 s for ts_vsum at N = 3): one kernel per harness
-family("enc_output_vmin", lambda n: [f"enc_output_vmin::<{n}>(&mut fl);"], OUTC, [[0, 1], [2]], [[3], [4]], decl=EDECL, stub=True)
+family("enc_output_vmin", lambda n: [f"enc_output_vmin::<{n}>(&mut fl);"], OUTC, [[2]], [[0, 1], [3], [4]], decl=EDECL, stub=True)
 family("enc_output_vsum", lambda n: [f"enc_output_vsum::<{n}>(&mut fl);"], OUTC, [[0, 1], [2]], [[3], [4]], decl=EDECL, stub=True)
 family("enc_input_rolling", lambda n: [f"enc_input_rolling::<{n}>(&mut fl);"], OUTC, [], [[1], [2]], decl=EDECL, stub=True)
 
